@@ -72,6 +72,20 @@ func Harness_C03_type_expressions() {
 	verifCover("end")
 }
 
+func Harness_C03_generic_union_two_params() {
+	x := verifInt("x")
+	s := symBuf("s", 1)
+	var ok Res2[int, string] = New_Res2_ROk[int, string](x)
+	var er Res2[int, string] = New_Res2_RErr[int, string](s)
+	var no Res2[int, string] = New_Res2_RNone[int, string]()
+	_, isOk := ok.(Res2_ROk[int, string])
+	_, isErr := er.(Res2_RErr[int, string])
+	_, isNone := no.(Res2_RNone[int, string])
+	verifAssert(isOk && isErr && isNone, "New_U_C of a generic union builds U_C[T, E] with the type arguments in declared order")
+	verifAssert(useRes2(ok) == x && useRes2(er) == -1 && useRes2(no) == 0, "a Folang match dispatches on the Go-built values")
+	verifCover("end")
+}
+
 func Harness_C03_unions() {
 	x := verifInt("x")
 	var u U = U_P{Value: x}
